@@ -122,7 +122,7 @@ static void drv_apply(const vop_t *op, jb_t *res)
     int i;
     snapshot(); nalloc_in_op = 0; new_d = NULL;
     switch (op->k) {
-    case 0: a_begin((unsigned long)a[3]); cstl_array_alloc(&A[a[0]], term(a[1]), (size_t)a[2]); a_end(); jb_puts(res, ",\"ret\":0"); break;
+    case 0: a_begin((unsigned long)a[3]); cstl_array_alloc(&A[a[0]], term(a[1]), a[2] < 0 ? (size_t)1 << -a[2] : (size_t)a[2]);      /* a[2] = -e: elements of 2^e bytes */ a_end(); jb_puts(res, ",\"ret\":0"); break;
     case 1: a_begin((unsigned long)a[3]); cstl_array_set(&A[a[0]], EXT[a[1]], (size_t)MAXN, (size_t)a[2]); a_end(); jb_puts(res, ",\"ret\":0"); break;
     case 2: a_begin(0); cstl_array_slice(&A[a[0]], term(a[1]), term(a[2]), &A[a[3]]); a_end(); jb_puts(res, ",\"ret\":0"); break;
     case 3: a_begin(0); cstl_array_unslice(&A[a[0]], &A[a[1]]); a_end(); jb_puts(res, ",\"ret\":0"); break;
@@ -221,6 +221,8 @@ static int drv_enum(vop_t *ops, int max)
     for (a = 1; a <= NA; a++) {
         for (n = 0; n < 3; n++) for (f = 0; f < (FAULTS ? 3 : 1); f++) ADD(0, a, nms[n] < 0 ? MAXN : nms[n], 4, f);
         for (n = 0; n < 2; n++) { ADD(0, a, 1000 + n, 1, 0); ADD(0, a, 1000 + n, 4, 0); }
+        ADD(0, a, 16, -60, 0); ADD(0, a, 2, -63, 0);
+        ADD(0, a, 2, 16, 0); if (MAXN != 2) ADD(0, a, MAXN, 16, 0);
         for (e = 1; e <= 2; e++) for (f = 0; f < (FAULTS ? 3 : 1); f++) ADD(1, a, e, 4, f);
         for (s = 1; s <= NA; s++) {
             for (b = 0; b <= MAXN + 3; b++) for (e = 0; e <= MAXN + 3; e++)
